@@ -52,37 +52,78 @@ def mentions(node, name) -> bool:
     return any(isinstance(n, ast.Name) and n.id == name for n in ast.walk(node))
 
 
-def run(ctx) -> Report:
-    rep = Report("C20")
-    prog = ctx.prog
+def handler_cache_sites(prog):
+    """Class-level caches read in __init__: (class, attribute, __init__, [fetch assignments], kind).
+    kind 'dict-get'  : v = <Class>.attr.get(<key>)         (one dict on the base class, keyed explicitly)
+    kind 'class-attr': v = <class object variable>.attr     (one attribute per class, found by attribute lookup)"""
     sites = []
     for cls in prog.all_classes():
         for cname, cval in cls.assigns.items():
-            if not isinstance(cval, ast.Dict) or "cache" not in cname.lower():
+            if "cache" not in cname.lower():
                 continue
             init = cls.methods.get("__init__")
             if init is None:
                 continue
-            fetches = []
+            fetches, kind = [], None
             for st in ast.walk(init.node):
-                if isinstance(st, ast.Assign) and isinstance(st.value, ast.Call) and isinstance(st.value.func, ast.Attribute) and st.value.func.attr == "get" and norm(st.value.func.value).endswith("." + cname):
+                if not (isinstance(st, ast.Assign) and len(st.targets) == 1 and isinstance(st.targets[0], ast.Name)):
+                    continue
+                v = st.value
+                if isinstance(v, ast.Call) and isinstance(v.func, ast.Attribute) and v.func.attr == "get" and norm(v.func.value).endswith("." + cname):
                     fetches.append(st)
+                    kind = "dict-get"
+                elif isinstance(v, ast.Attribute) and v.attr == cname and not (isinstance(v.value, ast.Name) and v.value.id == "self" and False):
+                    fetches.append(st)
+                    kind = kind or "class-attr"
+                elif isinstance(v, ast.Call) and norm(v.func) == "getattr" and len(v.args) >= 2 and isinstance(v.args[1], ast.Constant) and v.args[1].value == cname:
+                    fetches.append(st)
+                    kind = kind or "class-attr"
             if fetches:
-                sites.append((cls, cname, init, fetches))
+                sites.append((cls, cname, init, fetches, kind))
+    return sites
+
+
+def cache_key_rule(prog, rep, rule, cls, cname, init, fetch, kind):
+    """the handler table of an algorithm class must be found under that exact class"""
+    what = f"{cls.name}.{cname}"
+    if kind == "dict-get":
+        key = norm(fetch.value.args[0]) if fetch.value.args else "?"
+        if key in ("type(self)", "algorithm_class", "self.__class__"):
+            rep.ok(rule, init, f"{what}: keyed by the algorithm class ({key})")
+        else:
+            rep.violation(rule, init, f"{what}.get({key})", f"{what} is keyed by `{key}`, not by the algorithm class")
+    else:
+        src = norm(fetch.value)
+        if "__dict__" in src or src.startswith("vars("):
+            rep.ok(rule, init, f"{what}: read from the class's own namespace ({src})")
+        else:
+            rep.violation(
+                rule,
+                (init, fetch),
+                f"{norm(fetch.targets[0])} = {src}",
+                f"{what} is stored as an attribute of each algorithm class and read by attribute lookup (`{src}`), which follows the MRO: a subclass first "
+                "instantiated after its parent finds the parent's handler table and never builds its own, so handlers the subclass adds are skipped",
+            )
+
+
+def run(ctx) -> Report:
+    rep = Report("C20")
+    prog = ctx.prog
+    sites = handler_cache_sites(prog)
     if len(sites) < 2:
         raise AnalysisError(f"found {len(sites)} class-level handler caches, expected at least 2 (MultiFunction, Transformer)")
     covered_tables = set()
-    for cls, cname, init, fetches in sites:
+    for cls, cname, init, fetches, kind in sites:
         mod = cls.module
         for fetch in fetches:
             var = fetch.targets[0].id if isinstance(fetch.targets[0], ast.Name) else None
-            key = norm(fetch.value.args[0]) if fetch.value.args else "?"
+            key = norm(fetch.value.args[0]) if kind == "dict-get" and fetch.value.args else norm(fetch.value)
             # the rebuild: an `if` whose body stores into the cache
             rebuild = None
             for st in ast.walk(init.node):
                 if isinstance(st, ast.If):
                     for b in ast.walk(st):
-                        if isinstance(b, ast.Assign) and any(isinstance(t, ast.Subscript) and norm(t.value).endswith("." + cname) for t in b.targets):
+                        if isinstance(b, ast.Assign) and any((isinstance(t, ast.Subscript) and norm(t.value).endswith("." + cname)) or (isinstance(t, ast.Attribute) and t.attr == cname) for t in b.targets):
                             rebuild = st
                             break
                 if rebuild:
@@ -131,10 +172,7 @@ def run(ctx) -> Report:
                     elif snap:
                         rep.violation("C20-live", (init, n), f"for {norm(n.target)} in {norm(n.iter)}", f"{what}: handler table is filled by iterating `{norm(n.iter)}`, an import-time snapshot of the registry ({snap}); types registered later never get a handler")
             # (3) key is the algorithm class
-            if key in ("type(self)", "algorithm_class", "self.__class__"):
-                rep.ok("C20-cache/key", init, f"{what}: keyed by the algorithm class ({key})")
-            else:
-                rep.violation("C20-cache/key", init, f"{what}.get({key})", f"{what} is keyed by `{key}`, not by the algorithm class")
+            cache_key_rule(prog, rep, "C20-cache/key", cls, cname, init, fetch, kind)
             covered_tables.add(cls.name)
     # C20-live (global): snapshots of the registry must not size / index per-typecode tables anywhere
     n_idx = 0
